@@ -112,6 +112,10 @@ def record(ctx, nruns, nsteps):
                         ctx.violation("crash", "implementation died in the closed loop (%s)" % comp, {"cfg": cfg})
                         d = vlib.Drv()
                         break
+                    if r["cvs"]["q"].get("ft", [0.0])[0] is None or r["cvs"]["q"]["fa"][0] is None:
+                        # not-a-number at a singular geometry of the component (collinear arms, coincident centres): end this run here
+                        ctx.extra["singular_geometries_skipped"] = ctx.extra.get("singular_geometries_skipped", 0) + 1
+                        break
                     ev = {"e": "First" if first else "Step", "fa": vlib.lat(r["cvs"]["q"]["fa"][0], D), "lam": lam, "j": jn,
                           "ft": vlib.lat(r["cvs"]["q"].get("ft", [0.0])[0], D)}
                 else:
@@ -121,6 +125,9 @@ def record(ctx, nruns, nsteps):
                     fat = r0["fat"]
                     sysf = [[(1 + lam) * c for c in fat.get(str(i), [0, 0, 0])] for i in range(8)] + noise[8:]
                     r = d.cmd(op="step", pos=P, sys=sysf, newrun=True, cvforce=fv, actual=actual)
+                    if r.get("op") != "step" or r["cvs"]["q"].get("ft", [0.0])[0] is None or r0["cvs"]["q"]["fa"][0] is None:
+                        ctx.extra["singular_geometries_skipped"] = ctx.extra.get("singular_geometries_skipped", 0) + 1
+                        break
                     ev = {"e": "Present", "fa": vlib.lat(r0["cvs"]["q"]["fa"][0], D), "lam": lam, "j": jn,
                           "ft": vlib.lat(r["cvs"]["q"].get("ft", [0.0])[0], D)}
                 first = False
